@@ -172,6 +172,38 @@ def main(tier, replay=None):
             R.count("cli-pipe-%d-%s" % (n, pieces), True)
             if not out or out[0] != want:
                 viol.append(dict(cli="producer writing %s bytes | dud checksum" % pieces, implementation=out[:1], blake3_of_bytes=want))
+    # several files in ONE invocation (with and without a caller-chosen buffer size, files of many buffers each): one line per file, in
+    # argument order, each the BLAKE3 of that file
+    many = []
+    for j, n in enumerate([300000, 299999, 1 << 20, 65536, 0, 777777, (1 << 20) + 1, 4097]):
+        data = gen_content(n + 11 + j, n)
+        path = os.path.join(tmp, "m%d" % j)
+        open(path, "wb").write(data)
+        many.append((path, run_lines([drv, "b3hex"], [data.hex() or "-"])[0]))
+    for extra in ([], ["-b", "4096"], ["-b", "1"], ["-b", "65536"], ["--bufsize", "100000"]):
+        for rep in range(3 if extra else 1):
+            p = subprocess.run([dud, "checksum"] + extra + [m[0] for m in many], env=env, stdout=subprocess.PIPE, stderr=subprocess.PIPE)
+            got = [l.split() for l in ROOT_WARNING.sub(b"", p.stdout).decode().splitlines() if l.strip()]
+            R.count("cli-many-%s-%d" % (extra, rep), True)
+            if [g[0] for g in got if g] != [m[1] for m in many] or [g[-1] for g in got if g] != [m[0] for m in many]:
+                bad = [(m[0], m[1], g[0]) for m, g in zip(many, got) if g and g[0] != m[1]][:2]
+                viol.append(dict(cli="dud checksum %s <%d files in one invocation>" % (" ".join(extra), len(many)), exit=p.returncode,
+                                 lines=len(got), first_wrong=[dict(file=os.path.basename(a), blake3_of_bytes=b, implementation=c) for a, b, c in bad]))
+                break
+    # STDIN that is a regular file already read in part (`{ read header; dud checksum; } < file`): exactly the remaining bytes
+    for n, off in [(5000, 0), (5000, 1), (300000, 65536), (300000, 299999), (70000, 70000)]:
+        data = gen_content(n + 29, n)
+        path = os.path.join(tmp, "stdin%d_%d" % (n, off))
+        open(path, "wb").write(data)
+        want = run_lines([drv, "b3hex"], [data[off:].hex() or "-"])[0]
+        fd = os.open(path, os.O_RDONLY)
+        os.lseek(fd, off, os.SEEK_SET)
+        p = subprocess.run([dud, "checksum"], env=env, stdin=fd, stdout=subprocess.PIPE, stderr=subprocess.PIPE)
+        os.close(fd)
+        out = ROOT_WARNING.sub(b"", p.stdout).decode().split()
+        R.count("cli-stdin-file-%d-%d" % (n, off), True)
+        if not out or out[0] != want:
+            viol.append(dict(cli="dud checksum < file of %d bytes already read up to offset %d" % (n, off), implementation=out[:1], blake3_of_remaining_bytes=want))
     # files whose reported size says nothing about what a read returns (procfs: st_size 0, content not empty)
     for path in ("/proc/version", "/proc/filesystems", "/proc/sys/kernel/ostype"):
         try:
